@@ -78,8 +78,11 @@ def random_case(rng):
             ops.append({"op": "empty"})
     for _ in range(rng.randint(1, 4)):
         m = len(ops)
-        o = rng.choice(["add", "sub", "add", "sub", "neg", "roundtrip", "relist"])
-        if o in ("add", "sub", "relist"):
+        o = rng.choice(["add", "sub", "add", "sub", "neg", "roundtrip", "relist", "ir_sub3", "ir_addsub", "ir_subadd", "ir_negsub"])
+        if o in ("ir_sub3", "ir_addsub", "ir_subadd"):
+            i_ = rng.randint(1, m)
+            ops.append({"op": o, "i": i_, "j": i_ if rng.random() < 0.4 else rng.randint(1, m), "k": rng.randint(1, m)})
+        elif o in ("add", "sub", "relist", "ir_negsub"):
             ops.append({"op": o, "i": rng.randint(1, m), "j": rng.randint(1, m)})
         else:
             ops.append({"op": o, "i": rng.randint(1, m)})
@@ -131,6 +134,12 @@ def check(tier, seed):
     rep.add_tlc(rsp)
     cases += [c["ops"] for c in rsp.cases]
     rep.extra["splice_cases"] = len(rsp.cases)
+    # 1c. two-step computations folded by the IR reducer over the same classes (the intermediate result stays in the IR)
+    rir = core.tlc_mc("MC_Assets", MC_CFG.format(amt=1, npush=2, nder=1, eq="VEq", emit="TRUE", focus="ir"),
+                      "c15_ir", workers=4, timeout=600)
+    rep.add_tlc(rir)
+    cases += [c["ops"] for c in rir.cases]
+    rep.extra["ir_chain_cases"] = len(rir.cases)
     # 2. design-level demonstration of the deviation (derived equality on the representation)
     rd = core.tlc_mc("MC_Assets", MC_CFG.format(amt=1, npush=2, nder=0, eq="RepEqDerived", emit="FALSE", focus="all"),
                      "c15_dev", workers=2, timeout=300, expect_violation=True)
